@@ -184,6 +184,97 @@ class Norm:
         return (k,)
 
 
+def canon(t, smap):
+    """Unabridged canonical rendering of a symx term: `.await` erased, sibling names mapped, log calls dropped by the caller."""
+    if not isinstance(t, tuple):
+        return repr(t)
+    k = t[0]
+    c = lambda x: canon(x, smap)
+    if k == "await":
+        return c(t[1])
+    if k in ("lit",):
+        return repr(t[1])
+    if k in ("var", "def"):
+        return rename(str(t[1]), smap)
+    if k == "unit":
+        return "()"
+    if k == "call":
+        if t[1] in ("<for>", "<loop>") and len(t) > 3 and isinstance(t[3], dict):
+            inner = sorted(canon_path(p, smap) for p in t[3].get("paths", []))
+            return "%s(%s){%s}" % (t[1], ", ".join(c(a) for a in t[2]), " || ".join(inner))
+        return "%s(%s)" % (rename(t[1] or "?", smap), ", ".join(c(a) for a in t[2]))
+    if k == "ctor":
+        if isinstance(t[2], dict):
+            return "%s{%s}" % (rename(t[1], smap), ", ".join("%s: %s" % (n, c(v)) for n, v in sorted(t[2].items())))
+        return "%s(%s)" % (rename(t[1], smap), ", ".join(c(a) for a in t[2]))
+    if k in ("tuple", "array"):
+        return "%s(%s)" % (k, ", ".join(c(a) for a in t[1]))
+    if k == "field":
+        return "%s.%s" % (c(t[1]), t[2])
+    if k == "index":
+        return "%s[%s]" % (c(t[1]), c(t[2]))
+    if k == "bin":
+        return "(%s %s %s)" % (c(t[2]), t[1], c(t[3]))
+    if k == "un":
+        return "%s(%s)" % (t[1], c(t[2]))
+    if k == "cast":
+        return "(%s as %s)" % (c(t[2]), rename(str(t[1]), smap))
+    if k == "fmt":
+        return "fmt[" + "".join(p[1] if p[0] == "s" else "{" + c(p[1]) + (":" + p[2] if p[2] else "") + "}" for p in t[1]) + "]"
+    if k == "closure":
+        return "|..| " + rename(show(t[1].get("body")), smap)
+    if k == "proj":
+        return "%s#%s" % (c(t[1]), rename(str(t[2]), smap))
+    if k in ("elem", "ok?", "err?"):
+        return "%s(%s)" % (k, c(t[1]))
+    if k == "phi":
+        return "phi(%s | %s)" % (c(t[1]), " | ".join(sorted(c(x) for x in t[2])))
+    return "<%s>" % k
+
+
+def rename(s, smap):
+    for a, b in smap:
+        s = s.replace(a, b)
+    return s
+
+
+def is_log_call(t):
+    return isinstance(t, tuple) and t[0] == "call" and (str(t[1]).startswith("log::") or (str(t[1]).startswith("macro::") and str(t[1]).split("::")[-1] in LOG_MACROS))
+
+
+def canon_path(p, smap):
+    conds = []
+    for cnd in p.conds:
+        if cnd[0] == "if":
+            conds.append(("" if cnd[2] else "!") + canon(cnd[1], smap))
+        elif cnd[0] == "match":
+            conds.append("%s ~ %s" % (canon(cnd[1], smap), rename(str(cnd[2]), smap)))
+        elif cnd[0] == "guard":
+            conds.append("guard " + canon(cnd[1], smap))
+        else:
+            conds.append(str(cnd[0]))
+    # the order of effects: each call with the number of conditions already decided when it runs
+    trace = ["%s@%s" % (canon(t, smap), t[4] if len(t) > 4 else "") for t in p.trace if isinstance(t, tuple) and t[0] == "call" and not is_log_call(t)]
+    return "%s [%s] {%s} => %s" % (p.kind, " && ".join(conds), "; ".join(trace), canon(p.ret, smap))
+
+
+def same_paths(ab, sb, smap):
+    """Second judgement for twins whose trees differ: equal sets of path summaries (conditions in order, calls in order with the
+    conditions in force, returned term) mean the two bodies make the same calls with the same arguments under the same tests -
+    a one-sided rewrite that only introduces a temporary, reorders declarations or reshapes control flow is not a difference."""
+    from ..symx import TooManyPaths, paths_of
+    try:
+        pa = sorted(canon_path(p, smap) for p in paths_of(ab))
+        ps = sorted(canon_path(p, []) for p in paths_of(sb))
+    except TooManyPaths:
+        return False, "too many paths"
+    if pa == ps:
+        return True, "%d paths" % len(pa)
+    only_a = [x for x in pa if x not in ps]
+    only_s = [x for x in ps if x not in pa]
+    return False, "async only: %s ||| blocking only: %s" % ((only_a[0] if only_a else "-")[:300], (only_s[0] if only_s else "-")[:300])
+
+
 def first_diff(a, b, where="body"):
     """Path to the first difference between two normalised trees."""
     if a == b:
@@ -257,9 +348,16 @@ def check(run, views, tier):
             ns = Norm([]).root(sb)
             d = first_diff(na, ns)
             if d:
-                disagreements += 1
-                where, x, y = d
-                detail = "twins differ at %s: async has %s, blocking has %s" % (where, brief(x)[:260], brief(y)[:260])
+                # trees differ: are the path summaries the same (a one-sided, behaviour-preserving rewrite)?
+                eq, why = same_paths(ab, sb, smap)
+                if eq:
+                    d = None
+                    detail = "trees differ, path summaries equal (%s)" % why
+                    run.note("twin %s: trees differ, path summaries equal" % apath)
+                else:
+                    disagreements += 1
+                    where, x, y = d
+                    detail = "twins differ at %s: async has %s, blocking has %s; path summaries differ too: %s" % (where, brief(x)[:200], brief(y)[:200], why)
             else:
                 detail = "equal"
             run.ob("R-TWIN", "%s == %s (modulo await)" % (apath.split("::", 2)[-1], spath.split("::", 2)[-1]), d is None, detail, site(ab),
